@@ -26,7 +26,7 @@ TECHNIQUE = ('deterministic simulation: insertion order / INSTALLED_APPS '
              'order / applied-subset history as the schedule, signal trace '
              'of the real run vs an independent unit-order model')
 PLAN = {
-    'quick': {'count': 300, 'max_wall': 170, 'shrink_budget': 25,
+    'quick': {'count': 600, 'max_wall': 170, 'shrink_budget': 25,
               'shrink_wall': 100},
     'thorough': {'count': 6000, 'max_wall': 1500, 'shrink_budget': 60,
                  'shrink_wall': 300},
